@@ -138,6 +138,21 @@ func Setup(scID, dir string) *World {
 			return
 		}
 		snapshot("accepted")
+		// "failed": the execution of that resharing failed on M. executeAndFinishDKG records exactly this: the current
+		// record with its state set to Failed, the finished record (epoch 1) untouched
+		{
+			p := filepath.Join(dir, scID, "failed", dkg.BoltFileName)
+			CopyFile(dbPath(), p)
+			if st, err := dkg.NewDKGStore(filepath.Dir(p)); err == nil {
+				if cur, err := st.GetCurrent(BeaconID); err == nil && cur != nil {
+					cur.State = dkg.Failed
+					_ = st.SaveCurrent(BeaconID, cur)
+				}
+				_ = st.Close()
+				w.Snap["failed"] = p
+				w.At["failed"] = clk.Now()
+			}
+		}
 		// the leader aborts, then proposes a resharing in which M leaves, and executes it: M ends in Left at epoch 2
 		if err := nt.Abort(ctx, L); err != nil {
 			w.Err = fmt.Errorf("abort: %w", err)
